@@ -72,7 +72,9 @@ def sweep(ctx, pool, configs):
 
 
 def run(ctx):
-    ctx.lean_stage([], ["Verif.Props.C09"])
+    ctx.lean_stage([], ["Verif.Props.C09", "Verif.Props.TokenRules"])
+    import blocks
+    blocks.tokenrules(ctx)     # H1 (fix removes its own trigger), idempotence, H2 table and the joint level-1 pass for nine token fixers
     stats_c, samples = F.fix_correspondence(ctx, 40 if ctx.quick() else 600, F.FIX_CORPUS)
     fm = E.fix_meta()
     dflt = E.default_ids()
